@@ -451,6 +451,17 @@ def yearlyShare (rows : List (Int × Option Date × Option Date)) (year : Nat) :
 
 def dedup (l : List Nat) : List Nat := l.foldl (fun acc x => if acc.contains x then acc else acc ++ [x]) []
 
+/-- `SimulationManager.calc_simulation_years`: the calendar years of a simulated period, i.e. every
+year from the start date's to the end date's (each contains at least one simulated day) -/
+def yearsOf (start stop : Date) : List Nat := (List.range (stop.y - start.y + 1)).map fun i => start.y + i
+
+/-- the survey planner's convention (`ScheduledSurveyPlanner._get_simulation_years`): whole
+simulation years only — the last calendar year is dropped when the period ends earlier in the
+calendar than it starts.  NOT what the summaries are built with -/
+def plannerYears (start stop : Date) : List Nat :=
+  let lastY := if start.m > stop.m ∨ (start.m = stop.m ∧ start.d > stop.d) then stop.y - 1 else stop.y
+  (List.range (lastY + 1 - start.y)).map fun i => start.y + i
+
 /-- one site of an estimate file for one year: (site, site type, measured?, annual value) -/
 abbrev SiteInfo := Nat × Nat × Bool × Rat
 
